@@ -305,6 +305,92 @@ fn send_class(r: &Result<(), PeerSendError>) -> &'static str {
 }
 
 // ---------------------------------------------------------------------------------------------
+// (n) which public entry points of src/peer.rs does this family drive?
+// ---------------------------------------------------------------------------------------------
+/// `pub fn` names of `src/peer.rs` driven by the op lines of this family.
+const DRIVEN: &[&str] = &[
+    "body_format", "as_bytes", "into_bytes", // NotifyBody (in the capturing sinks)
+    "new", "peer_id", "send_notify", "is_connected", // PeerHandle (`new` also: CallContext, PeerRegistry)
+    "detached", "method", "peer", "is_cancelled", "cancelled", // CallContext
+    "next_peer_id", "len", "is_empty", "peers", "get", "alias", "get_by", "key_for", "aliases_for", "insert", "remove",
+    "broadcast_notify_json", "broadcast_notify_beve", "broadcast_notify_utf8", "broadcast_notify_raw",
+];
+/// Public items this family does not drive, and why.
+const NOT_DRIVEN_BECAUSE: &[(&str, &str)] = &[];
+
+/// `pub fn` names in the non-test part of `src/peer.rs` of the tree under test that are neither driven nor
+/// explained.  They go to stats.json (`not_driven`) and to stderr: a new twin must not go unnoticed.
+fn entry_point_audit(out: &mut Out) -> Vec<String> {
+    let repo = std::env::var("VERIF_REPO").unwrap_or_else(|_| "/repo".into());
+    let text = std::fs::read_to_string(std::path::Path::new(&repo).join("src").join("peer.rs")).unwrap_or_default();
+    let text = text.split("#[cfg(test)]").next().unwrap_or("").to_string();
+    let mut names: Vec<String> = Vec::new();
+    for line in text.lines() {
+        let t = line.trim_start();
+        for pre in ["pub async fn ", "pub fn "] {
+            if let Some(rest) = t.strip_prefix(pre) {
+                let name: String = rest.chars().take_while(|c| c.is_alphanumeric() || *c == '_').collect();
+                if !name.is_empty() && !names.contains(&name) {
+                    names.push(name);
+                }
+            }
+        }
+    }
+    let missing: Vec<String> = names.iter().filter(|n| !DRIVEN.contains(&n.as_str()) && !NOT_DRIVEN_BECAUSE.iter().any(|(m, _)| m == n)).cloned().collect();
+    out.extra.insert("entry_points_found".into(), serde_json::json!(names.len()));
+    out.extra.insert("not_driven".into(), serde_json::json!(missing));
+    for m in &missing {
+        out.count(&format!("NOT_DRIVEN.{}", m));
+    }
+    missing
+}
+
+// ---------------------------------------------------------------------------------------------
+// (o) liveness of the check on a broken tree: every call into the registry bumps PROGRESS; a watchdog thread
+// turns 40 s without progress into an oracle failure (with the history as the failing input) and ends the run.
+// ---------------------------------------------------------------------------------------------
+static PROGRESS: std::sync::atomic::AtomicU64 = std::sync::atomic::AtomicU64::new(0);
+/// what is running right now: the explicit history since the last `reset`, or the replay of a coded sequence
+static RUNNING: Mutex<Vec<String>> = Mutex::new(Vec::new());
+static RUNNING_CODED: Mutex<Vec<(usize, String)>> = Mutex::new(Vec::new());
+
+fn progress() {
+    PROGRESS.fetch_add(1, Ordering::Relaxed);
+}
+
+fn start_watchdog(dir: std::path::PathBuf, limit: Duration) {
+    std::thread::spawn(move || {
+        let mut last = PROGRESS.load(Ordering::Relaxed);
+        let mut since = Instant::now();
+        loop {
+            std::thread::sleep(Duration::from_millis(500));
+            let now = PROGRESS.load(Ordering::Relaxed);
+            if now != last {
+                last = now;
+                since = Instant::now();
+                continue;
+            }
+            if since.elapsed() > limit {
+                let coded = RUNNING_CODED.lock().map(|v| v.clone()).unwrap_or_default();
+                let ops: Vec<String> = if let Some((_, path)) = coded.first() {
+                    eops_of_str(path).map(|p| explicit_replay(&p)).unwrap_or_default()
+                } else {
+                    RUNNING.lock().map(|v| v.clone()).unwrap_or_default()
+                };
+                let cur = std::fs::read_to_string(dir.join("current_op.txt")).unwrap_or_default();
+                let v = serde_json::json!({"sig": "peers.call_never_returned", "detail": format!("no call into the registry returned for {} s while running `{}`", limit.as_secs(), cur.chars().take(200).collect::<String>()), "ops": ops});
+                use std::io::Write;
+                if let Ok(mut f) = std::fs::OpenOptions::new().append(true).create(true).open(dir.join("oracle.txt")) {
+                    let _ = writeln!(f, "{}", v);
+                }
+                eprintln!("peers: watchdog: no progress for {} s, giving up", limit.as_secs());
+                std::process::exit(0);
+            }
+        }
+    });
+}
+
+// ---------------------------------------------------------------------------------------------
 // the real registry
 // ---------------------------------------------------------------------------------------------
 struct Real {
@@ -646,6 +732,12 @@ fn spec_apply(s: &mut Spec, tag: u64, op: EOp) -> Option<String> {
 
 /// Apply a coded op to a real registry.  `bcast_body` identifies the broadcast in the sinks' log.
 fn real_apply(reg: &PeerRegistry, log: &Log, tag: u64, op: EOp, keys: &[String], bcast_body: &[u8]) -> String {
+    let r = real_apply_inner(reg, log, tag, op, keys, bcast_body);
+    progress();
+    r
+}
+
+fn real_apply_inner(reg: &PeerRegistry, log: &Log, tag: u64, op: EOp, keys: &[String], bcast_body: &[u8]) -> String {
     match op {
         EOp::Ins(p) => {
             let beh = if CODED_SLOW.load(Ordering::Relaxed) { Beh::Slow } else { Beh::Ok };
@@ -719,8 +811,24 @@ struct EnumCtx {
     fails: Vec<Fail>,
 }
 
-/// Replays `path` on a fresh real registry; returns the return value of the last op and the digest.
+thread_local! { static ENUM_SLOT: Cell<usize> = const { Cell::new(0) }; }
+
+fn code_of(op: EOp) -> u8 {
+    (0..32u8).find(|c| eop_of_code(*c) == Some(op)).unwrap_or(0)
+}
+
 fn run_real_path(path: &[EOp], keys: &[String]) -> (String, String) {
+    // remember what this thread is replaying (for the watchdog's report)
+    {
+        let me = ENUM_SLOT.with(|c| c.get());
+        let ps: String = path.iter().map(|op| code_char(code_of(*op))).collect();
+        if let Ok(mut v) = RUNNING_CODED.lock() {
+            match v.iter_mut().find(|(i, _)| *i == me) {
+                Some(e) => e.1 = ps,
+                None => v.push((me, ps)),
+            }
+        }
+    }
     let mut real = Real::new();
     let mut last = String::new();
     for (i, op) in path.iter().enumerate() {
@@ -825,6 +933,7 @@ fn run_enum(idx: &str, depth: usize, fold: usize, prefix: &str, alphabet: &[u8],
         for _ in 0..threads.max(1) {
             sc.spawn(|| loop {
                 let ci = next.fetch_add(1, Ordering::SeqCst);
+                ENUM_SLOT.with(|c| c.set(ci + 1));
                 if ci >= alphabet.len() {
                     break;
                 }
@@ -1194,6 +1303,179 @@ fn run_loop(setup: &[EOp], cycle: &[EOp], readers: &[Vec<EOp>], expect: &[String
 }
 
 // ---------------------------------------------------------------------------------------------
+// (s) sinks that stall for longer than any plausible internal timer; (u) the broadcast clause on the built-in
+// WebSocket server's own sink (`with_peer_registry`)
+// ---------------------------------------------------------------------------------------------
+struct StallSink {
+    ms: u64,
+    got: Arc<Mutex<Vec<(u64, String, u16, Vec<u8>)>>>,
+}
+impl PeerSink for StallSink {
+    fn send_notify(&self, method: &str, body: NotifyBody) -> Result<(), PeerSendError> {
+        let fmt = body.body_format() as u16;
+        // a transport that is slow to take the message: busy elsewhere for `ms`, then accepts it
+        let t0 = Instant::now();
+        while t0.elapsed() < Duration::from_millis(self.ms) {
+            std::thread::sleep(Duration::from_millis(20));
+            progress();
+        }
+        self.got.lock().unwrap().push((self.ms, method.to_string(), fmt, body.into_bytes()));
+        Ok(())
+    }
+}
+
+/// One broadcast to sinks that each stall for one of `stalls` ms, while a second thread keeps using the
+/// registry.  Returns an error text if a peer present at the call did not get exactly one notification with the
+/// given content, or the result map is not one `Ok` per such peer.
+fn run_stall(stalls: &[u64]) -> Result<usize, String> {
+    let reg = PeerRegistry::new();
+    let got = Arc::new(Mutex::new(Vec::new()));
+    for (i, ms) in stalls.iter().enumerate() {
+        reg.insert(PeerHandle::new(PeerId(i as u64), Arc::new(StallSink { ms: *ms, got: got.clone() })));
+        reg.alias(PeerId(i as u64), format!("k{}", i));
+    }
+    let stop = Arc::new(AtomicBool::new(false));
+    let side = {
+        let (reg, stop, got) = (reg.clone(), stop.clone(), got.clone());
+        std::thread::spawn(move || {
+            // inserts / removes of OTHER peers and lookups while the broadcast is between its sends
+            let mut n = 0u64;
+            while !stop.load(Ordering::Acquire) {
+                let id = 100 + n % 5;
+                reg.insert(PeerHandle::new(PeerId(id), Arc::new(StallSink { ms: 0, got: got.clone() })));
+                reg.alias(PeerId(id), "side");
+                let _ = (reg.get_by("k0").is_some(), reg.len(), reg.aliases_for(PeerId(0)));
+                reg.remove(PeerId(id));
+                n += 1;
+                progress();
+                std::thread::sleep(Duration::from_millis(5));
+            }
+            n
+        })
+    };
+    std::thread::sleep(Duration::from_millis(30));
+    let body = vec![7u8; 100];
+    let res = reg.broadcast_notify_raw("/stall", BodyFormat::RawBinary, &body);
+    stop.store(true, Ordering::Release);
+    let side_ops = side.join().unwrap_or(0);
+    let got = got.lock().unwrap().clone();
+    // the peers 0..n were present at the call (the side thread's peers may or may not have been)
+    for (i, ms) in stalls.iter().enumerate() {
+        let mine: Vec<_> = got.iter().filter(|g| g.0 == *ms && g.1 == "/stall").collect();
+        let same_ms = stalls.iter().filter(|m| *m == ms).count();
+        if mine.len() != same_ms || mine.iter().any(|g| g.2 != 0 || g.3 != body) {
+            return Err(format!("the sink that stalls {} ms received {} notifications (expected one with the given body)", ms, mine.len()));
+        }
+        match res.get(&PeerId(i as u64)) {
+            Some(Ok(())) => {}
+            other => return Err(format!("result for the peer whose sink stalls {} ms: {:?} (its sink answered Ok)", ms, other.map(|r| r.as_ref().map_err(|e| e.to_string())))),
+        }
+    }
+    for i in 0..stalls.len() {
+        if reg.get_by(format!("k{}", i).as_str()).map(|h| h.peer_id().0) != Some(i as u64) || reg.aliases_for(PeerId(i as u64)) != vec![format!("k{}", i)] {
+            return Err(format!("after the broadcast peer {} or its key is gone", i));
+        }
+    }
+    Ok(side_ops as usize)
+}
+
+/// The built-in server path: a WebSocketServer wired with `with_peer_registry`, `k` raw WebSocket clients;
+/// every broadcast must reach every connected client exactly once as a notify frame with the given path, body
+/// and format, and report one Ok per connected peer; after one client left, the same for the remaining ones.
+fn run_ws(k: usize) -> Result<usize, String> {
+    use futures_util::StreamExt;
+    use repe_verif_harness::frames::RawFrame;
+    use tokio_tungstenite::tungstenite::Message as WsMsg;
+    let rt = tokio::runtime::Builder::new_multi_thread().worker_threads(2).enable_all().build().map_err(|e| e.to_string())?;
+    let wd = Duration::from_secs(15);
+    rt.block_on(async move {
+        let reg = PeerRegistry::new();
+        let l = tokio::net::TcpListener::bind("127.0.0.1:0").await.map_err(|e| e.to_string())?;
+        let addr = l.local_addr().map_err(|e| e.to_string())?;
+        let server = repe::WebSocketServer::new(repe::Router::new()).with_peer_registry(reg.clone());
+        tokio::spawn(async move {
+            let _ = server.serve_listener(l, "/repe").await;
+        });
+        let mut clients = Vec::new();
+        for _ in 0..k {
+            let (ws, _) = tokio::time::timeout(wd, tokio_tungstenite::connect_async(format!("ws://{}/repe", addr))).await.map_err(|_| "connect timed out".to_string())?.map_err(|e| e.to_string())?;
+            clients.push(ws);
+        }
+        let wait_len = |want: usize| {
+            let reg = reg.clone();
+            async move {
+                let t0 = Instant::now();
+                while reg.len() != want {
+                    if t0.elapsed() > wd {
+                        return Err(format!("registry never reached {} peers (has {})", want, reg.len()));
+                    }
+                    tokio::time::sleep(Duration::from_millis(5)).await;
+                    progress();
+                }
+                Ok(())
+            }
+        };
+        wait_len(k).await?;
+        let ids: Vec<PeerId> = reg.peers().iter().map(|h| h.peer_id()).collect();
+        for (i, id) in ids.iter().enumerate() {
+            if !reg.alias(*id, format!("c{}", i)) {
+                return Err("alias of a connected peer refused".into());
+            }
+        }
+        let mut checked = 0usize;
+        let rounds: Vec<(&str, &str, u16, Vec<u8>)> = vec![
+            ("raw", "/w/raw", 0, vec![1, 2, 3, 255]),
+            ("utf8", "/w/é", 3, "héllo".as_bytes().to_vec()),
+            ("json", "", 2, serde_json::to_vec(&serde_json::json!({"n": 1})).unwrap()),
+            ("raw", "/w/big", 1, vec![9u8; 70_000]),
+        ];
+        for phase in 0..2 {
+            for (variant, path, fmt, body) in &rounds {
+                let reg2 = reg.clone();
+                let (variant, path2, fmt, body2) = (variant.to_string(), path.to_string(), *fmt, body.clone());
+                // the broadcast helpers are synchronous: off the runtime's worker threads
+                let res = tokio::time::timeout(wd, tokio::task::spawn_blocking(move || match variant.as_str() {
+                    "utf8" => reg2.broadcast_notify_utf8(&path2, String::from_utf8(body2).unwrap()),
+                    "json" => reg2.broadcast_notify_json(&path2, &serde_json::from_slice::<serde_json::Value>(&body2).unwrap()).unwrap_or_default(),
+                    _ => reg2.broadcast_notify_raw(&path2, BodyFormat::try_from(fmt).unwrap(), &body2),
+                })).await.map_err(|_| "broadcast did not return".to_string())?.map_err(|e| e.to_string())?;
+                if res.len() != clients.len() || res.values().any(|r| r.is_err()) {
+                    return Err(format!("{} connected clients, result map {:?}", clients.len(), res.iter().map(|(k, v)| (k.0, v.is_ok())).collect::<Vec<_>>()));
+                }
+                for ws in clients.iter_mut() {
+                    let m = tokio::time::timeout(wd, ws.next()).await.map_err(|_| format!("a connected client received nothing for the broadcast to `{}`", path))?;
+                    let Some(Ok(WsMsg::Binary(b))) = m else { return Err("a connected client got something other than a binary message".into()) };
+                    let Some((f, n)) = RawFrame::parse_prefix(&b) else { return Err("the notification is not a REPE frame".into()) };
+                    if n != b.len() || f.h.notify != 1 || f.query != path.as_bytes() || f.body != *body || f.h.body_format != fmt {
+                        return Err(format!("client received notify={} query {} bytes body {} bytes format {} for a broadcast of path {} bytes, body {} bytes, format {}", f.h.notify, f.query.len(), f.body.len(), f.h.body_format, path.len(), body.len(), fmt));
+                    }
+                    checked += 1;
+                    progress();
+                }
+            }
+            if phase == 0 {
+                // one client leaves: its peer and its key must go, the others stay
+                let mut gone = clients.remove(0);
+                let _ = gone.close(None).await;
+                drop(gone);
+                wait_len(k - 1).await?;
+                let live = (0..k).filter(|i| reg.get_by(format!("c{}", i).as_str()).is_some()).count();
+                if live != k - 1 {
+                    return Err(format!("after one of {} clients left, {} keys still resolve", k, live));
+                }
+            }
+        }
+        // nobody may have received anything more
+        for ws in clients.iter_mut() {
+            if let Ok(Some(Ok(WsMsg::Binary(_)))) = tokio::time::timeout(Duration::from_millis(150), ws.next()).await {
+                return Err("a client received a notification nobody broadcast".into());
+            }
+        }
+        Ok(checked)
+    })
+}
+
+// ---------------------------------------------------------------------------------------------
 // explicit op lines: a session = real registry + spec, both driven by the same lines
 // ---------------------------------------------------------------------------------------------
 struct Sess {
@@ -1209,6 +1491,10 @@ struct Sess {
     /// the registry stopped working (a poisoned mutex that is not recovered from): the rest of the history is skipped
     dead: bool,
 }
+
+/// the background broadcast to stalling sinks (started by `stall`, collected by `stalljoin`, across resets)
+static STALL: Mutex<Option<std::thread::JoinHandle<Result<usize, String>>>> = Mutex::new(None);
+static STALL_LINE: Mutex<String> = Mutex::new(String::new());
 
 impl Sess {
     fn new() -> Sess {
@@ -1276,8 +1562,22 @@ fn exec(out: &mut Out, se: &mut Sess, cfg: &Cfg, line: &str) -> (String, String,
     }
     let idx = w.get(1).copied().unwrap_or("?").to_string();
     let bad = |l: &str| (l.to_string(), format!("{} bad-op", idx), false);
+    progress();
     if !matches!(w[0], "enum" | "conc" | "concs" | "loop") {
         se.history.push(line.to_string());
+        if let Ok(mut r) = RUNNING.lock() {
+            if w[0] == "reset" {
+                r.clear();
+            }
+            r.push(line.to_string());
+        }
+    } else if let Ok(mut r) = RUNNING.lock() {
+        // the line itself is the replay of a race
+        r.clear();
+        r.push(line.to_string());
+    }
+    if let Ok(mut c) = RUNNING_CODED.lock() {
+        c.clear();
     }
     let check_ret = |out: &mut Out, se: &Sess, name: &str, imp: &str, want: &str| {
         if imp != want {
@@ -1745,6 +2045,55 @@ fn exec(out: &mut Out, se: &mut Sess, cfg: &Cfg, line: &str) -> (String, String,
                 None => bad(line),
             }
         }
+        "stall" if w.len() >= 3 => {
+            // stall <i> <ms>.. : started in the background, joined by `stalljoin`
+            let ms: Vec<u64> = w[2..].iter().filter_map(|x| x.parse().ok()).collect();
+            if ms.len() != w.len() - 2 || STALL.lock().unwrap().is_some() {
+                return bad(line);
+            }
+            *STALL_LINE.lock().unwrap() = line.to_string();
+            *STALL.lock().unwrap() = Some(std::thread::spawn(move || run_stall(&ms)));
+            out.count("stall.started");
+            (line.to_string(), format!("{} started", idx), true)
+        }
+        "stalljoin" if w.len() == 2 => {
+            let Some(j) = STALL.lock().unwrap().take() else { return bad(line) };
+            match j.join() {
+                Ok(Ok(n)) => {
+                    out.add("stall.side_ops_during_broadcast", n as u64);
+                    (line.to_string(), format!("{} ok", idx), true)
+                }
+                Ok(Err(d)) => {
+                    let ops = vec![STALL_LINE.lock().unwrap().clone(), line.to_string()];
+                    out.oracle_fail("peers.bcast.stalled_sink", &d, &ops);
+                    (line.to_string(), format!("{} FAILED", idx), true)
+                }
+                Err(_) => {
+                    out.oracle_fail("peers.bcast.stalled_sink", "the broadcast to stalling sinks panicked", &se.history);
+                    (line.to_string(), format!("{} FAILED", idx), true)
+                }
+            }
+        }
+        "ws" if w.len() == 3 => {
+            let Ok(k) = w[2].parse::<usize>() else { return bad(line) };
+            if k < 2 || k > 16 {
+                return bad(line);
+            }
+            match catch(|| run_ws(k)) {
+                Ok(Ok(n)) => {
+                    out.add("ws.notifications_checked", n as u64);
+                    (line.to_string(), format!("{} ok", idx), true)
+                }
+                Ok(Err(d)) => {
+                    out.oracle_fail("peers.ws.broadcast", &format!("WebSocketServer::with_peer_registry, {} clients: {}", k, d), &se.history);
+                    (line.to_string(), format!("{} FAILED", idx), true)
+                }
+                Err(_) => {
+                    out.oracle_fail("peers.ws.broadcast", "the WebSocket scenario panicked", &se.history);
+                    (line.to_string(), format!("{} FAILED", idx), true)
+                }
+            }
+        }
         "loop" if w.len() >= 5 => {
             // loop <i> <setup> <cycle> <reader>.. [:: <answers per reader>..]
             let (Some(setup), Some(cycle)) = (eops_of_str(w[2]), eops_of_str(w[3])) else { return bad(line) };
@@ -1897,6 +2246,7 @@ fn sigs_of(ops: &[String], cfg: &Cfg, scratch: &std::path::Path) -> Vec<String> 
     for l in ops {
         let _ = exec(&mut o, &mut se, cfg, l);
     }
+    progress();
     o.finish();
     let text = std::fs::read_to_string(scratch.join("oracle.txt")).unwrap_or_default();
     text.lines().filter_map(|l| serde_json::from_str::<serde_json::Value>(l).ok()).filter_map(|v| v.get("sig").and_then(|s| s.as_str()).map(|s| s.to_string())).collect()
@@ -2098,6 +2448,24 @@ fn gen_history(rng: &mut Rng, n: &mut usize, len: usize, thorough: bool, ops: &m
     };
     let clone_tok = |rng: &mut Rng| if rng.chance(1, 8) { " on=clone" } else { "" };
     ops.push(format!("reset {} via={}", next(n), rng.below(2)));
+    progress();
+    // (q) one history in five starts rich: 12-20 keys per peer assigned in a scrambled order, so that whatever
+    // rare event follows (re-entrant sinks, panics, poisoning, clones, re-points) meets long ordered lists
+    if rng.chance(1, 5) {
+        for (pi, v) in ids.clone().into_iter().take(3).enumerate() {
+            tag += 1;
+            spec.insert(v, tag);
+            behs.insert(tag, Beh::Ok);
+            ops.push(format!("ins {} {} {} ok", next(n), v, tag));
+            let mut ks: Vec<String> = (0..rng.range(12, 20)).map(|i| hex(format!("q{}-{}", pi, i).as_bytes())).collect();
+            rng.shuffle(&mut ks);
+            for k in ks {
+                spec.alias(v, &k);
+                ops.push(format!("alias {} {} {} via={}", next(n), v, k, rng.below(4)));
+            }
+        }
+        ops.push(format!("dump {}", next(n)));
+    }
     for _ in 0..len {
         let r = rng.below(100);
         let id = *rng.pick(&ids);
@@ -2563,7 +2931,10 @@ fn main() {
     // failing input ("search", out dir ...-search).  That run must stay short in the quick tier: it gets its
     // own sizing (longer races and loops than quick, far less enumeration than thorough).
     let search = args.thorough() && args.out.to_string_lossy().ends_with("-search");
-    let thorough = args.thorough() && !search;
+    // `--lite`: quick sizing whatever the tier (the release-profile run of the thorough tier)
+    let lite = args.has("--lite");
+    let thorough = args.thorough() && !search && !lite;
+    let search = search && !lite;
     let replay = args.replay_ops();
     let cfg = Cfg {
         loop_budget: Duration::from_millis(if replay.is_some() { 3000 } else if search { 1500 } else if thorough { 1000 } else { 120 }),
@@ -2571,6 +2942,16 @@ fn main() {
         conc_budget: Duration::from_millis(if replay.is_some() { 30000 } else if thorough { 250 } else { 60 }),
         threads: 4,
     };
+    let missing = entry_point_audit(&mut out);
+    if !missing.is_empty() {
+        eprintln!("peers: public entry points of src/peer.rs NOT DRIVEN by this family (add them to DRIVEN or NOT_DRIVEN_BECAUSE): {:?}", missing);
+    }
+    if std::env::args().any(|a| a == "--check-entry-points") {
+        println!("not driven: {:?}", missing);
+        std::process::exit(if missing.is_empty() { 0 } else { 1 });
+    }
+    // nothing in src/peer.rs waits for anything: 40 s without a single call returning is a hang
+    start_watchdog(args.out.clone(), Duration::from_secs(40));
     out.config(&format!("mode {}", debug_mode()));
     out.extra.insert("build_profile".into(), serde_json::json!(debug_mode()));
     out.rule = "enum: every sequence of insert/remove/alias over 3 peers x 3 keys up to the tier's length (inserting a present id pruned: documented contract), each replayed on a fresh real PeerRegistry, observation = return value of the last call + every query (get, key_for, aliases_for, get_by, len); state cover: the same from every reachable abstract state; random: long histories over u64-boundary ids and odd keys with capturing sinks (ok/Disconnected/Full/Other/re-entrant) and the four broadcast_notify_* helpers; conc: 2-4 threads racing coded programs on one registry, outcome must be among the outcomes of the sequential orders. Distinct by op line; non-trivial = some key is assigned / a mutation or a hit / more than one sequential outcome".into();
@@ -2579,10 +2960,23 @@ fn main() {
         ops = r.into_iter().filter(|l| !l.starts_with("mode ")).collect();
     } else {
         let mut n = 0usize;
+        // (0) a broadcast to sinks that stall longer than any plausible internal timer runs in the background
+        // for the whole run (joined by `stalljoin` at the end); the built-in WebSocket server's sink path
+        n += 1;
+        ops.push(format!("stall {} {}", n, if thorough { "2500 5500 11000" } else { "300 600 1100" }));
+        n += 1;
+        ops.push(format!("ws {} {}", n, if thorough { 6 } else { 3 }));
         // (1) small-scope exhaustive enumeration
         n += 1;
         if thorough {
-            ops.push(format!("enum {} 7 3 -", n));
+            // every sequence of length <= 6, and every sequence of length 7 that starts with an insert (a sequence
+            // that starts with a remove / alias on the empty registry is a refused call followed by a sequence
+            // of length 6): a fifth of the 15^7 replays, which keeps the tier inside its budget on a busy machine
+            ops.push(format!("enum {} 6 2 -", n));
+            for pre in ["a", "b", "c"] {
+                n += 1;
+                ops.push(format!("enum {} 6 3 {}", n, pre));
+            }
         } else if search {
             ops.push(format!("enum {} 6 2 -", n));
         } else {
@@ -2698,6 +3092,8 @@ fn main() {
             n += 1;
             ops.push(gen_loop(&mut rng, n));
         }
+        n += 1;
+        ops.push(format!("stalljoin {}", n));
     }
     let mut se = Sess::new();
     for line in ops {
@@ -2708,6 +3104,11 @@ fn main() {
             // a thread of this process is parked inside the registry: stop here, the report is written
             out.finish();
             std::process::exit(0);
+        }
+        if out.oracle_failures >= 12 {
+            // enough failing inputs: report quickly instead of running the rest on a broken tree
+            out.count("stopped_after_12_oracle_failures");
+            break;
         }
     }
     let failed = out.oracle_failures > 0;
